@@ -1229,6 +1229,47 @@ impl<'a> Exec<'a> {
             }
             self.live_indices(|o| o.final_seq.is_some_and(|s| new.contains(&s)))
         };
+        // C05 "in publication order": each final completion processed wakes
+        // the waker of its operation's most recent poll at that moment, so
+        // for the operations this call completed (and woke, exactly once,
+        // through wakers that share no block) the order of the wakes is the
+        // order in which the completions were handed over: it must be the
+        // order in which the kernel published them.
+        if self.oracles.c05 && newly.len() >= 2 {
+            // Publication order = position in the completion ring (a free
+            // running counter; compared relative to the head before the call,
+            // so a wrap of the counter does not matter), not the order in
+            // which the kernel generated the completions (task work of a
+            // defer_taskrun ring is published later than it was generated).
+            let positions: BTreeMap<u64, u32> = {
+                let mut s = sim::sim();
+                match s.ring(self.world.ring_fd) {
+                    Some(ring) => ring.posted.iter().filter_map(|p| p.position.map(|pos| (p.seq, pos.wrapping_sub(cq_head_before)))).collect(),
+                    None => BTreeMap::new(),
+                }
+            };
+            let mut woken: Vec<(u64, u64, usize)> = Vec::new();
+            for &i in &newly {
+                let op = &self.ops[i];
+                if op.phase == Phase::Submitted && op.polled && op.fut.is_some() && op.waker.wakes() == op.wakes_at_poll + 1 {
+                    let cell = op.waker.token();
+                    let shared = self.ops.iter().enumerate().any(|(k, o)| k != i && o.waker.token() == cell);
+                    if let (false, Some(pos)) = (shared, op.final_seq.and_then(|s| positions.get(&s))) {
+                        woken.push((*pos as u64, op.waker.last_wake_seq(), i));
+                    }
+                }
+            }
+            woken.sort();
+            if woken.len() >= 2 {
+                self.feat("handover-order-checked");
+            }
+            for pair in woken.windows(2) {
+                if pair[0].1 > pair[1].1 {
+                    self.violation("C05:out-of-publication-order", format!("Ring::poll handed the completion of operation {} (published at position head+{}) to it before the completion of operation {} (published earlier, at head+{}); completion queue head {cq_head_before:#x} -> {cq_head:#x}", pair[1].2, pair[1].0, pair[0].2, pair[0].0));
+                    break;
+                }
+            }
+        }
         // C03a quiescence: every operation whose last poll returned Pending
         // and whose final completion this call consumed must have been woken.
         // (C09: the caller has to get to see the outcome of the last attempt
